@@ -54,6 +54,9 @@ type RepairIn struct {
 	NodeListFault  string    `json:"nodeListFault"`  // listing the pool's / cluster's nodes: "" | "err" | "notfound"
 	PatchFault     string    `json:"patchFault"`     // annotating the NodeClaim
 	DeleteFault    string    `json:"deleteFault"`
+	// frame: durations the NodeClaim carries that are no part of the repair trigger (null = unset / Never)
+	ClaimTGP         *int64 `json:"claimTgp,omitempty"`         // spec.terminationGracePeriod, ns
+	ClaimExpireAfter *int64 `json:"claimExpireAfter,omitempty"` // spec.expireAfter, ns
 }
 
 var condTypes = []string{"BadNode", "Ready", "NetworkUnavailable", "DiskPressure"}
@@ -226,6 +229,19 @@ func genRepair(r *rand.Rand, _ core.Tier) any {
 	} else {
 		in.Now = base + r.Int64N(sec(7200))
 	}
+	// frame: 40% of the NodeClaims carry a terminationGracePeriod, 50% an expireAfter; with a grace period g, 25%
+	// of the clocks are drawn inside [toleration end - g, toleration end)
+	if r.Float64() < 0.4 {
+		g := pick(r, []int64{0, sec(1), sec(30), sec(300), sec(600), sec(3600)})
+		in.ClaimTGP = &g
+		if t, ok := minTermination(in.Policies, in.Node.Conds); ok && g > 0 && r.Float64() < 0.25 {
+			in.Now = t - g + r.Int64N(g)
+		}
+	}
+	if r.Float64() < 0.5 {
+		e := pick(r, []int64{0, sec(60), sec(300), sec(600), sec(1800), sec(3600), sec(720 * 3600)})
+		in.ClaimExpireAfter = &e
+	}
 	switch x := r.Float64(); {
 	case x < 0.05:
 		in.Claims = "none"
@@ -350,6 +366,12 @@ func implRepair(raw json.RawMessage) (any, error) {
 		if in.ClaimPool != "" {
 			nc.Labels[v1.NodePoolLabelKey] = in.ClaimPool
 		}
+		if in.ClaimTGP != nil {
+			nc.Spec.TerminationGracePeriod = &metav1.Duration{Duration: time.Duration(*in.ClaimTGP)}
+		}
+		if in.ClaimExpireAfter != nil {
+			nc.Spec.ExpireAfter = v1.NillableDuration{Duration: (*time.Duration)(in.ClaimExpireAfter)}
+		}
 		switch in.Annot {
 		case "time":
 			nc.Annotations = map[string]string{v1.NodeClaimTerminationTimestampAnnotationKey: at(sec(in.AnnotSec)).Format(time.RFC3339)}
@@ -451,8 +473,17 @@ func repairLabels(raw json.RawMessage, impl any) []string {
 		default:
 			l = append(l, "clock:after")
 		}
+		if in.ClaimTGP != nil && *in.ClaimTGP > 0 && t-*in.ClaimTGP <= in.Now && in.Now < t {
+			l = append(l, "clock:in-[tgp-window-before-toleration-end)")
+		}
 	} else {
 		l = append(l, "target:healthy")
+	}
+	if in.ClaimTGP != nil {
+		l = append(l, "claim:tgp-set")
+	}
+	if in.ClaimExpireAfter != nil {
+		l = append(l, "claim:expireAfter-set")
 	}
 	// the population and its unhealthy count
 	n, u, ut, ht := 0, 0, 0, 0
